@@ -280,6 +280,8 @@ impl Runtime {
 
             if thread.can_run() {
                 thread.run_n_steps(1);
+                #[cfg(feature = "abra_verif")]
+                thread.verif_after_turn();
                 remaining_steps -= 1;
                 steps_run += 1;
                 skipped_threads = 0;
@@ -2988,6 +2990,17 @@ impl VmGreenThread {
         let mut out = String::new();
         Self::verif_digest_into(v, &mut out);
         out
+    }
+
+    /// the thread has just executed its turn
+    fn verif_after_turn(&self) {
+        if let Some(err) = &self.error {
+            crate::verif::emit(crate::verif::Event::ThreadFailed {
+                thread: self.id,
+                is_main: self.is_main,
+                error: &err.kind.to_string(),
+            });
+        }
     }
 
     fn verif_note_alloc(&mut self, addr: usize, kind: &'static str) {
